@@ -1,6 +1,7 @@
 CONSTANTS
   NSet = {2, 5, 7}
   MSet = {3, 4}
+  TailMSet = {4, 6}
   RSet = {1, 2}
   FamOpts <- OptsOrder
 INIT FInit
